@@ -38,7 +38,7 @@ structure Batch where
   schema  : Nat        -- opaque schema identity (fields, types, schema metadata)
   rows    : Nat
   payload : Bytes      -- opaque fingerprint of the column values
-  meta    : Meta       -- the batch's custom metadata (IPC message custom_metadata)
+  md      : Meta       -- the batch's custom metadata (IPC message custom_metadata)
   deriving DecidableEq, Repr
 
 /-- `IsExternalLocationBatch(batch, meta)`: zero rows, a location key, no log-level key. -/
@@ -85,11 +85,29 @@ inductive ExtResult
   | inline                               -- batch and metadata returned unchanged, 0 bytes charged
   | encoderErr                           -- zstd.NewWriter refused the level (levels outside 1..4)
   | uploadErr (up : Upload)              -- Storage.Upload failed
-  | pointer (schema : Nat) (meta : Meta) (charged : Nat) (up : Upload)
+  | pointer (schema : Nat) (md : Meta) (charged : Nat) (up : Upload)
   deriving DecidableEq, Repr
 
+/-- `config.Compression != nil && config.Compression.Algorithm == "zstd"`. -/
+def zstdOn (c : ExtCfg) : Bool :=
+  match c.compression with
+  | some k => k.algorithm == encZstd
+  | none => false
+
+/-- `zstd.NewWriter(nil, zstd.WithEncoderLevel(level))` fails: a positive `Level` is passed on
+as `zstd.EncoderLevel(Level)`, and the library knows only levels 1..4. -/
+def levelBad (c : ExtCfg) : Bool :=
+  match c.compression with
+  | some k => decide (k.level > 4)
+  | none => false
+
+/-- What is handed to `Storage.Upload`: the raw IPC bytes, or their zstd encoding. -/
+def mkUpload (w : World) (c : ExtCfg) (raw : Bytes) : Upload :=
+  if zstdOn c then ⟨w.zenc raw, encZstd⟩ else ⟨raw, []⟩
+
 /-- `externalizeBatchCtx`. `bufSize` is `batchBufferSize(batch)`; `store` is `Storage.Upload`
-(`none` = error). The pointer batch has the original schema, zero rows and `meta`. -/
+(`none` = error). The pointer batch has the original schema, zero rows and metadata `md`; the
+checksum is taken over the RAW IPC bytes, before compression. -/
 def externalize (w : World) (cfg : Option ExtCfg) (b : Batch) (bufSize : Nat)
     (store : Upload → Option Bytes) : ExtResult :=
   match cfg with
@@ -98,31 +116,21 @@ def externalize (w : World) (cfg : Option ExtCfg) (b : Batch) (bufSize : Nat)
     if !c.storage then .inline
     else if b.rows = 0 then .inline
     else if (bufSize : Int) < threshold c then .inline
-    else
-      let raw := w.ser b
-      let sha := w.sha raw
-      let zstdOn := match c.compression with
-        | some k => k.algorithm = encZstd
-        | none => false
-      let levelBad := match c.compression with
-        | some k => k.level > 4          -- zstd.WithEncoderLevel: only 1..4 exist (0 or less = default)
-        | none => false
-      if zstdOn ∧ levelBad then .encoderErr
-      else
-        let up : Upload := if zstdOn then ⟨w.zenc raw, encZstd⟩ else ⟨raw, []⟩
-        match store up with
-        | none => .uploadErr up
-        | some url => .pointer b.schema (pointerMeta url sha) raw.length up
+    else if zstdOn c && levelBad c then .encoderErr
+    else match store (mkUpload w c (w.ser b)) with
+      | none => .uploadErr (mkUpload w c (w.ser b))
+      | some url => .pointer b.schema (pointerMeta url (w.sha (w.ser b))) (w.ser b).length
+          (mkUpload w c (w.ser b))
 
 /-! ### Read path -/
 
 /-- A log/error batch inside a fetched stream: zero rows and a log-level key in the batch's
 custom metadata. -/
-def isLogBatch (b : Batch) : Bool := hasKey b.meta keyLogLevel && b.rows == 0
+def isLogBatch (b : Batch) : Bool := hasKey b.md keyLogLevel && b.rows == 0
 
 /-- A nested pointer inside a fetched stream ("redirect loop" test): location key and zero rows,
 looked at only after the log test. -/
-def isNestedPointer (b : Batch) : Bool := hasKey b.meta keyLocation && b.rows == 0
+def isNestedPointer (b : Batch) : Bool := hasKey b.md keyLocation && b.rows == 0
 
 inductive ResErr
   | missingUrl | validator | fetch | checksum | parse | loop | noData
@@ -152,6 +160,18 @@ inductive ResResult
   | ok (b : Batch)
   deriving DecidableEq, Repr
 
+/-- `config.URLValidator != nil && config.URLValidator(url) != nil`. -/
+def rejected (c : ResCfg) (url : Bytes) : Bool :=
+  match c.validator with
+  | some v => !v url
+  | none => false
+
+/-- The checksum test: only when the pointer carries `vgi_rpc.location.sha256`. -/
+def shaMismatch (m : Meta) (digest : Bytes) : Bool :=
+  match metaGet m keyLocationSha with
+  | some expected => expected != digest
+  | none => false
+
 /-- `ResolveExternalLocation` after the fetch has been performed (`fetched`). -/
 def resolveCore (cfg : Option ResCfg) (rows : Nat) (m : Meta)
     (fetch : Bytes → Except Unit Fetched) : ResResult :=
@@ -163,17 +183,11 @@ def resolveCore (cfg : Option ResCfg) (rows : Nat) (m : Meta)
       let url := (metaGet m keyLocation).getD []
       if url = [] then .err .missingUrl
       else
-        let rejected := match c.validator with
-          | some v => !v url
-          | none => false
-        if rejected then .err .validator
+        if rejected c url then .err .validator
         else match fetch url with
           | .error _ => .err .fetch
           | .ok f =>
-            let mismatch := match metaGet m keyLocationSha with
-              | some expected => expected ≠ f.digest
-              | none => false
-            if mismatch then .err .checksum
+            if shaMismatch m f.digest then .err .checksum
             else match f.parsed with
               | none => .err .parse
               | some bs => match walk bs none with
